@@ -170,6 +170,40 @@ def restrict_rule(line, keep_br=True):
 
 
 IDBASES = [0, 0, 1, 2**32, 2**32 + 5, 2**40 + 7, 2**63, 2**64 - 256 - 200]
+KMAX = 2**64 - 256                  # BuildEngine::kMaximumInputID: ids GREATER than this are reserved
+BOUNDARY_IDS = [0, 7, 0x8000000000001000, KMAX - 1, KMAX, 2**32, 2**63 - 1, 2**63]
+MIXM = 1000003
+
+
+def mix(h, x):
+    h ^= (x + 0x9e3779b97f4a7c15 + (h << 6) + (h >> 2)) % 2**64
+    return (h % 2**64) % MIXM
+
+
+def input_payload(k, envval):
+    """payload of an observing input rule without inputs (the drivers' task arithmetic)"""
+    h = mix(k % MIXM, envval)
+    return h % 2 if k % 3 == 0 else h
+
+
+def ids_lines(rng, L, p=0.5):
+    """explicit input ids for some rules (C side only; the C++ drivers number their inputs 0, 1, ...): boundary values incl. kMaximumInputID"""
+    out = []
+    for l in L:
+        if l.startswith("rule ") and rng.random() < p:
+            ids = rng.sample(BOUNDARY_IDS, 5) + [rng.randrange(KMAX + 1) for _ in range(4)]
+            if len(set(ids)) == len(ids):
+                out.append("ids %s %s" % (l.split(" ")[1], ",".join(map(str, ids))))
+    return out
+
+
+def cycle_gadget(rng, base):
+    """rules base..base+3: a gate input G (key divisible by 3: payload 0/1) and a ring A -> B -> C -> A whose back edge A -> B exists
+    only while G's payload is even; -> (rule lines, gate key, root key)"""
+    g = base + (-base) % 3
+    a, b, c = g + 1, g + 2, g + 3
+    return ["rule %d sig=0 obs=1" % g, "rule %d sig=0 obs=0 req=%d br=0:%d:" % (a, g, b), "rule %d sig=0 obs=0 req=%d" % (b, c),
+            "rule %d sig=0 obs=0 req=%d" % (c, a)], g, a
 
 
 def gen_scenario(rng, sched=None):
@@ -178,6 +212,7 @@ def gen_scenario(rng, sched=None):
     keys = sorted(int(l.split(" ")[1]) for l in L if l.startswith("rule "))
     head = [] if rng.random() < 0.1 else assign_names(rng, keys)
     head.append("idbase %d" % rng.choice(IDBASES))
+    head += ids_lines(rng, L)
     if rng.random() < 0.3:
         head.append("schema %d" % rng.choice([0, 2, 7, 2**31 - 1, 2**31, 2**32 - 1]))
     return head + L
@@ -191,11 +226,24 @@ def gen_shape_scenario(rng):
     with repeated (null) builds in the same engine and after reloading from the database."""
     usedb = rng.random() < 0.75
     L = enginelib.gen_history(rng, usedb=usedb, allow_rule_edits=False)
-    L = [restrict_rule(l, keep_br=False) if l.startswith("rule ") else l for l in L]
+    L = [restrict_rule(l) if l.startswith("rule ") else l for l in L]
     keys = sorted(int(l.split(" ")[1]) for l in L if l.startswith("rule "))
-    head = ["hexvalues 1"] + ([] if rng.random() < 0.2 else assign_names(rng, keys)) + ["idbase %d" % rng.choice(IDBASES)]
+    gate = None
+    if rng.random() < 0.4:
+        # a ring that is closed or open depending on external state: builds that end in a cycle, followed by more builds on the SAME engine
+        rules, gate, root = cycle_gadget(rng, max(keys) + 1)
+        first_build = min(i for i, l in enumerate(L) if l.startswith("build "))
+        L = L[:first_build] + rules + ["set %d %d" % (gate, rng.randrange(6))] + L[first_build:]
+        extra = []
+        for l in L[first_build + len(rules) + 1:]:
+            extra.append(l)
+            if l.startswith("build ") and rng.random() < 0.6:
+                extra += ["set %d %d" % (gate, rng.randrange(6)), "build %d" % root] + (["build %d" % root] if rng.random() < 0.5 else [])
+        L = L[:first_build + len(rules) + 1] + extra + ["build %d" % root, "set %d %d" % (gate, rng.randrange(6)), "build %d" % root, "build %d" % root]
+        keys = sorted(int(l.split(" ")[1]) for l in L if l.startswith("rule "))
+    head = ["hexvalues 1"] + ([] if rng.random() < 0.2 else assign_names(rng, keys)) + ["idbase %d" % rng.choice(IDBASES)] + ids_lines(rng, L)
     for k in keys:
-        if rng.random() < 0.55:
+        if k != gate and rng.random() < 0.55:
             head.append("shape %d %d" % (k, rng.choice([1, 1, 1, 2, 3, 3, 4])))
     vr = {}
     out = []
@@ -227,6 +275,42 @@ def scen_empty_value():
             "shape 1 1", "shape 2 3", "shape 4 4", "shape 5 2", "set 0 1",
             "build 7", "build 7", "restart", "build 7", "validret 1 0", "build 7", "validret 1 1", "build 7",
             "set 0 2", "build 7", "build 7", "validret 2 0", "validret 4 0", "restart", "build 7", "validret 2 1", "validret 4 1", "build 7"]
+
+
+def scen_cycle_repair():
+    """one engine: builds abandoned on a cycle, the back edge removed through external state, rebuild, null build, cycle again"""
+    rules, g, a = cycle_gadget(None, 9)
+    even = [v for v in range(40) if input_payload(g, v) % 2 == 0]
+    odd = [v for v in range(40) if input_payload(g, v) % 2 == 1]
+    L = ["hexvalues 1", "db 1", nm(g, b"g\0ate"), nm(a, b"r\0a"), nm(a + 1, b"r\0b"), nm(a + 2, b"r\0"), nm(20, b"r")] + rules + \
+        ["rule 20 sig=0 obs=1", "set 20 1", "set %d %d" % (g, even[0]), "build %d" % a, "build %d" % a,
+         "set %d %d" % (g, odd[0]), "build %d" % a, "build %d" % a, "build %d" % (a + 2), "set %d %d" % (g, even[1]), "build %d" % a,
+         "build %d" % (a + 1), "set %d %d" % (g, odd[1]), "build %d" % (a + 2), "build %d" % a, "build %d" % a, "build 20"]
+    return L, a
+
+
+def scen_boundary_ids(hexvalues):
+    ids = [0, 7, 0x8000000000001000, KMAX - 1, KMAX]
+    L = (["hexvalues 1"] if hexvalues else []) + \
+        ["db 1"] + [nm(i, b"i\0" + bytes([65 + i])) for i in range(5)] + [nm(8, b"i\0top"), nm(7, b"i")] + \
+        ["rule %d sig=0 obs=1" % i for i in range(5)] + ["rule 7 sig=0 obs=1", "rule 8 sig=0 obs=0 req=0,1,2,3,4",
+         "ids 8 %s" % ",".join(map(str, ids))] + ["set %d %d" % (i, i + 1) for i in range(5)] + \
+        ["build 8", "build 8", "set 4 9", "build 8", "restart", "set 3 9", "build 8"]
+    return L, ids
+
+
+def boundary_ids_oracle(c_trace):
+    """every input id up to and including kMaximumInputID is delivered exactly once per run of the task, before inputs_available"""
+    errs = []
+    for b in builds_of(c_trace):
+        if ev_index(b, "start 8") < 0:
+            continue
+        got = sorted(int(l.split(" ")[2]) for l in b["events"] if l.startswith("provide 8 "))
+        if got != [0, 1, 2, 3, 4]:
+            errs.append("%s: the task requested 5 inputs (ids 0, 7, 0x8000000000001000, kMaximumInputID-1, kMaximumInputID) but provide_value arrived for slots %s" % (b["hdr"], got))
+        if ev_index(b, "avail 8") < 0:
+            errs.append("%s: inputs_available did not fire" % b["hdr"])
+    return errs
 
 
 def valid_effect_oracle(lines, c_trace):
@@ -381,6 +465,8 @@ def run_shape(chk, pair, lines, mode, cov):
         chk.violation("capi-is-result-valid-effect", "the answer of is_result_valid does not have its documented effect through the C interface: %s" % errs[0],
                       dict(mode=mode, scenario=lines, errors=errs[:10], c_trace=[l[:200] for l in res["c"][:300]]), found_input=True,
                       broken="C20 oracle: is_result_valid consulted for every stored result (any value bytes), answer decides whether the rule runs")
+    cov["status_lines_compared"] += sum(1 for l in res["cpp"] if l.startswith("status "))
+    cov["cycle_failed_builds"] += sum(1 for l in res["cpp"] if l.startswith("cycle "))
     ecpp = valid_effect_oracle(lines, res["cpp"])
     if ecpp and not errs:
         chk.notes.setdefault("valid_effect_oracle_on_cpp", []).append(ecpp[0])
@@ -435,7 +521,7 @@ def status_oracle(lines):
             return
         for k, s in st.items():
             want = [0, 2] if k in created else [0, 1]
-            if s != want and s != want[1:]:
+            if s != want:
                 bad.append("%s: rule %d status sequence %s, expected %s" % (cur, k, s, want))
     failed = [False]
     for l in lines:
@@ -630,9 +716,14 @@ def model_requests(rng, lines, res):
     """-> list of (request, expected answer, description) for the extracted model, built from the two traces."""
     ids = names_of(lines)
     base = 0
+    explicit = {}
     for l in lines:
         if l.startswith("idbase "):
             base = int(l.split(" ")[1])
+        elif l.startswith("ids "):
+            explicit[int(l.split(" ")[1])] = [int(x) for x in l.split(" ")[2].split(",")]
+    def cid(k, slot):           # the input id the C driver passes for slot <slot> of rule k
+        return explicit[k][slot] if k in explicit and slot < len(explicit[k]) else base + slot
     reqs = []
     junk = lambda: bytes(rng.randrange(256) for _ in range(rng.choice([0, 1, 1, 3])))
     def fwd(tag, blob, num, flag):
@@ -666,14 +757,14 @@ def model_requests(rng, lines, res):
         # forward(build key) is the key the C++ client built
         reqs.append((fwd(1, c["build"], 0, 0), "1 %s 0 0" % hx(kname(ids, b["key"])), "llb_buildengine_build key of %s" % b["hdr"]))
         prov = [l.split(" ") for l in b["events"] if l.startswith("provide ")]
-        want_req = sorted((int(t[1]), kname(ids, int(t[3])), int(t[2])) for t in prov)
-        got_req = sorted((k, blob, i - base) for (k, blob, i) in c["req"])
+        want_req = sorted((int(t[1]), kname(ids, int(t[3])), cid(int(t[1]), int(t[2]))) for t in prov)
+        got_req = sorted((k, blob, i) for (k, blob, i) in c["req"])
         # every delivered input was requested under exactly that key and id: forward(needs_input) = request(key, id)
         if len(want_req) == len(got_req):
             for (k, key, slot), (k2, blob, slot2) in zip(want_req, got_req):
-                reqs.append((fwd(2, blob, slot2 + base, 0), "2 %s %d 0" % (hx(key), slot + base), "task %d request in %s" % (k, b["hdr"])))
+                reqs.append((fwd(2, blob, slot2, 0), "2 %s %d 0" % (hx(key), slot), "task %d request in %s" % (k, b["hdr"])))
         # backward(provideValue) is what provide_value showed
-        want_prov = sorted((int(t[1]), int(t[2]) + base, kname(ids, int(t[3])), enc_value(t[4])) for t in prov)
+        want_prov = sorted((int(t[1]), cid(int(t[1]), int(t[2])), kname(ids, int(t[3])), enc_value(t[4])) for t in prov)
         got_prov = sorted(c["prov"])
         if len(want_prov) == len(got_prov):
             for (k, i, key, v), (k2, i2, v2) in zip(want_prov, got_prov):
@@ -843,6 +934,30 @@ def run_params(chk, pair, cov):
         chk.violation("capi-is-result-valid-effect", "is_result_valid was consulted %d times for the rule whose stored value is empty (expected on every later scan)" % nstamp,
                       dict(mode="shape-empty-value", scenario=L, c_trace=[l[:200] for l in res["c"][:300]]), found_input=True,
                       broken="C20 oracle: is_result_valid consulted for every stored result")
+    # ---- a build abandoned on a cycle followed by more builds on the SAME engine: update_status compared exactly with the C++ twin
+    L, root = scen_cycle_repair()
+    res = run_shape(chk, pair, L, "shape-cycle-repair", cov)
+    ncyc = sum(1 for l in res["c"] if l.startswith("cycle "))
+    nok = sum(1 for l in res["c"] if l.startswith("result ") and l != "result EMPTY")
+    cov["cycle_failed_builds"] += ncyc
+    if ncyc < 3 or nok < 4:
+        chk.notes["cycle_repair_scenario"] = "expected 3 cycle-failed and >= 4 successful builds, got %d / %d" % (ncyc, nok)
+    for e in status_oracle(res["c"]):
+        chk.violation("capi-update-status", "update_status reported an unexpected status kind sequence: %s" % e,
+                      dict(mode="shape-cycle-repair", scenario=L, detail=e), found_input=True, broken="C20 oracle: update_status kinds")
+        break
+    # ---- boundary input ids: 0, 7, 0x8000000000001000, kMaximumInputID-1, kMaximumInputID are delivered (kMaximumInputID+1: rejected, above)
+    for hexv in (False, True):
+        L, ids = scen_boundary_ids(hexv)
+        res = run_shape(chk, pair, L, "shape-boundary-ids", cov) if hexv else pair.run(L, trace=True)
+        if not hexv:
+            chk.count(("boundary-ids",))
+            report_diff(chk, L, res, "param-boundary-ids")
+        errs = boundary_ids_oracle(res["c"])
+        if errs:
+            chk.violation("capi-input-id-range", "an input id within the documented range is not delivered through provide_value: %s" % errs[0],
+                          dict(mode="shape-boundary-ids" if hexv else "param-boundary-ids", scenario=L, errors=errs[:10], c_trace=[l[:200] for l in res["c"][:200]]),
+                          found_input=True, broken="C20 oracle: input ids <= kMaximumInputID are the client's (core.h)")
     # ---- llb_rule_t.key: documented as "the key this rule computes", never read by the binding (recorded, not judged)
     L = scen_follow()
     res = pair.run(L, c_lines=["rulekey 1"] + L)
